@@ -195,7 +195,7 @@ Proof.
               split; [exact A|]. intros U. rewrite (B U). unfold bod, by_id. simpl.
               rewrite (Hother _ _ _ _ E P Hne Hpos). simpl. rewrite app_nil_r. reflexivity.
            ++ rewrite (csent_app _ _ _ Sf), Cn, app_nil_r. exact HS.
-Admitted.
+Qed.
 
 Theorem SN_reach ls : forall s, Client.lrun Client.init ls = Some s -> SN s.
 Proof.
